@@ -29,11 +29,14 @@ for pid in ids:
     if os.path.isdir(src + "/demo"):
         shutil.copytree(src + "/demo", dst + "/demo", ignore=shutil.ignore_patterns("work", "*.bin", "clean", ".git"))
     # which check reports it
+    evb = subprocess.check_output(["mktemp", "-d", "/tmp/evidence-backup.XXXXXX"], text=True).strip()
+    subprocess.call("cp -a /verif/evidence/. %s/" % evb, shell=True)
     subprocess.check_call(["git", "-C", "/repo", "apply", src + "/patch.diff"])
     try:
         out = subprocess.run(["/verif/check", pid, "quick"], capture_output=True, text=True).stdout
     finally:
         subprocess.check_call(["git", "-C", "/repo", "checkout", "--", "."])
+        subprocess.call("cp -a %s/. /verif/evidence/; rm -rf %s" % (evb, evb), shell=True)
     reported = []
     for f in sorted(glob.glob("/verif/replays/%s/*.json" % pid)):
         r = json.load(open(f))
